@@ -206,6 +206,8 @@ def handle_kani_result(pid, grp, h, r, verdict, ev, kfs):
 def do_replay(pid, path):
     import props
     txt = open(path).read()
+    if path.endswith(".json"):
+        return do_replay_json(pid, path, json.loads(txt))
     m = re.search(r"// @replay package=(\S+) harness=(\S+) tag=(\S+) flags=(\S*)", txt)
     if not m:
         print("not a replay file")
@@ -275,3 +277,64 @@ def write_evidence(pid, tier, seed, cfg, ev, verdict, wall, partial=False):
            "violations": len(verdict["violations"])}
     with open(os.path.join(EVID, pid + ".json"), "w") as f:
         json.dump(doc, f, indent=1, ensure_ascii=False, default=str)
+
+
+def do_replay_json(pid, path, d):
+    """Replays of the SMT / differential engines: recompile (or re-evaluate) with the CURRENT tree."""
+    overlay.lock()
+    import c03
+    binary, err, _t = c03.build_driver()
+    if err:
+        print("INCONCLUSIVE: " + err)
+        return 2
+    kind = d.get("kind")
+    if kind == "c03b":
+        import model
+        c03.NOTHROW.clear()
+        c03.NOTHROW.update(model.cannot_throw())
+        res, _rc = c03.run_driver(binary, [d["program"]], "replay")
+        r = res.get(0)
+        if not r or r["status"] != "ok":
+            print("replay: program no longer compiles: %r" % (r,))
+            return 2
+        optypes = c03.optypes_from_source()
+        z3 = c03.Solver(["z3", "-in"], "z3")
+        bad = 0
+        for blk in r["blocks"]:
+            body = c03.Body(blk, optypes)
+            smt, names, _n = body.smt()
+            v, core, e = z3.check(smt, True)
+            print("replay: body %r -> %s" % (blk["name"], v))
+            if v == "unsat":
+                bad += 1
+                for c in core[:8]:
+                    if c in names:
+                        print("   " + names[c][1])
+        z3.close()
+        if bad:
+            print("VIOLATION property=%s replay=%s" % (pid, path))
+            return 1
+        print("replay passes on the current tree")
+        return 0
+    if kind == "c03b-panic":
+        res, _rc = c03.run_driver(binary, [d["program"]], "replay")
+        r = res.get(0)
+        print("replay: %r" % ({k: v for k, v in (r or {}).items() if k != "blocks"},))
+        if r and r["status"] == "panic":
+            print("VIOLATION property=%s replay=%s" % (pid, path))
+            return 1
+        return 0
+    if kind == "c05-dup":
+        import c05
+        res = c05.eval_both(binary, d["program"])
+        print("replay: %r" % (res,))
+        if res.get("optimized") != res.get("unoptimized"):
+            print("VIOLATION property=%s replay=%s" % (pid, path))
+            return 1
+        print("replay passes on the current tree")
+        return 0
+    if kind == "c05-fp":
+        print("replay: SMT counterexample (model) for a float rewrite; re-run ./check %s to re-decide" % pid)
+        return 0
+    print("unknown replay kind")
+    return 2
